@@ -2,13 +2,18 @@
 // BTC scan loop and reports which block numbers were handed to processing (HandleEvents /
 // ProcessDeposits / GetBlockHash arguments).  Several evaluations at once - message batches, scripted
 // and free-running concurrent schedules on one handler, ranges with several retry events, receipts
-// decoded from RPC-style JSON - are in multi.go (drivers) and gen_multi.go (generators).  Heights, heads and confirmations are unbounded integers
-// in the cases; each path gets exactly the values its Go types can hold (see inDomain).
+// decoded from RPC-style JSON - are in multi.go (drivers) and gen_multi.go (generators); scripted
+// bound lookups (the k-th lookup fails, the head stalls or advances while a call waits) in
+// scripted.go; pool.go runs the cases ahead of vgen's sequential loop, concurrently and under a
+// per-case deadline (an implementation that sleeps or polls must not cost the sum of its waits).
+// Heights, heads and confirmations are unbounded integers in the cases; each path gets exactly the
+// values its Go types can hold (see inDomain).
 package main
 
 import (
 	"context"
 	"errors"
+	"fmt"
 	"math/big"
 	"strings"
 	"time"
@@ -59,23 +64,32 @@ func (i *Int) UnmarshalJSON(b []byte) error {
 // Domains (see coq/Model/C04.v in_domain): BTC heads are int64, Substrate finalized heads uint32, the
 // Substrate retry event height a u128; everything else is a *big.Int in the Go code.
 type Case struct {
-	Path  string  `json:"path"` // BtcScan EvmRetryTx EvmRetryMsg BtcRetryMsg SubRetryMsg SubRetryEvt | Hist | Seq
+	Path  string  `json:"path"` // BtcScan EvmRetryTx EvmRetryMsg BtcRetryMsg SubRetryMsg SubRetryEvt | Hist | Seq | ...
 	Head  Int     `json:"head"`
 	Blk   Int     `json:"blk"`
 	Conf  Int     `json:"conf"`
 	Start *Int    `json:"start,omitempty"` // Hist: nil = nil start block
 	Heads []int64 `json:"heads,omitempty"`
-	Ops   []SeqOp `json:"ops,omitempty"` // Seq: guard evaluations on long-lived, conf-sharing objects
+	// Hist: how the head lookup of poll i fails ("" = it answers Heads[i]; see failModes); may be shorter
+	Fails []string `json:"fails,omitempty"`
+	Ops   []SeqOp  `json:"ops,omitempty"` // Seq: guard evaluations on long-lived, conf-sharing objects
 	// Multi: several evaluations on one set of long-lived objects; mode batch | sched | free; sched =
 	// the script: each entry lets that evaluation run up to its next RPC call (or its end)
 	Mode  string  `json:"mode,omitempty"`
 	Evals []MEval `json:"evals,omitempty"`
 	Sched []int   `json:"sched,omitempty"`
-	// SubBatch: the Retry events (height, destination domain) of one range; Head = finalized head
-	Blks  []Int `json:"blks,omitempty"`
-	Dests []int `json:"dests,omitempty"`
+	// SubBatch: the Retry events (height, destination domain) of one range; Head = finalized head;
+	// Fin = how the finalized-head lookup of the range fails ("" = it answers Head)
+	Blks  []Int  `json:"blks,omitempty"`
+	Dests []int  `json:"dests,omitempty"`
+	Fin   string `json:"fin,omitempty"`
 	// TxBatch: the RetryV1 events of one range
 	Txs []TxEv `json:"txs,omitempty"`
+	// Scripted: the evaluations Evs, one after the other, on ONE long-lived handler of path On whose
+	// bound lookups are answered from Script (the k-th lookup gets the k-th answer, the last repeats)
+	On     string `json:"on,omitempty"`
+	Script []Ans  `json:"script,omitempty"`
+	Evs    []SEv  `json:"evs,omitempty"`
 }
 
 type SeqOp struct {
@@ -95,6 +109,10 @@ type Obs struct {
 	Seq    [][]Int   `json:"seq,omitempty"`
 	Multi  [][]Int   `json:"multi,omitempty"`
 	Logs   [][]int   `json:"logs,omitempty"` // TxBatch: per event the logs whose deposits became messages
+	// Scripted: per evaluation the answers the handler has been served so far (null = failed lookup)
+	Served [][]*Int `json:"served,omitempty"`
+	// the implementation did not answer within the deadline: nothing else was observed
+	Unanswered bool `json:"unanswered,omitempty"`
 }
 
 // ---- fakes -----------------------------------------------------------------------------------
@@ -141,12 +159,28 @@ func (c *evmClient) BlockByNumber(ctx context.Context, n *big.Int) (*ethTypes.Bl
 	return nil, errors.New("none")
 }
 
-// btcConn serves a scripted sequence of heads; when exhausted it cancels the listener's context.
+// failModes: how a bound lookup can fail.  "hash": the first RPC of a two-step lookup (GetBestBlockHash,
+// GetFinalizedHead) returns an error; "err": the RPC that carries the number (GetBlockVerboseTx,
+// GetBlock, LatestBlock) returns (nil, error); "err0": it returns a zero-valued result together with
+// the error; "nonum" (EVM only): no error and no number.
+var failModes = []string{"hash", "err", "err0"}
+
+var errRPC = errors.New("rpc: connection refused")
+
+// btcConn serves a scripted sequence of polls; when exhausted it cancels the listener's context.
 type btcConn struct {
 	heads  []int64
-	poll   int // index of the head most recently served
+	fails  []string
+	poll   int // index of the poll most recently served
 	next   int
 	cancel context.CancelFunc
+}
+
+func (c *btcConn) failAt(i int) string {
+	if i < len(c.fails) {
+		return c.fails[i]
+	}
+	return ""
 }
 
 func (c *btcConn) GetRawTransactionVerbose(*chainhash.Hash) (*btcjson.TxRawResult, error) {
@@ -160,14 +194,32 @@ func (c *btcConn) GetBestBlockHash() (*chainhash.Hash, error) {
 		}
 		return nil, errors.New("script exhausted")
 	}
+	if c.failAt(c.next) == "hash" {
+		c.poll = c.next
+		c.next++
+		return nil, errRPC
+	}
 	return &chainhash.Hash{}, nil
 }
 func (c *btcConn) GetBlockVerboseTx(*chainhash.Hash) (*btcjson.GetBlockVerboseTxResult, error) {
-	h := c.heads[c.next]
+	if c.next >= len(c.heads) {
+		return nil, errors.New("script exhausted")
+	}
+	h, f := c.heads[c.next], c.failAt(c.next)
 	c.poll = c.next
 	c.next++
+	switch f {
+	case "err":
+		return nil, errRPC
+	case "err0":
+		return &btcjson.GetBlockVerboseTxResult{}, errRPC
+	}
 	return &btcjson.GetBlockVerboseTxResult{Height: h}, nil
 }
+
+// maxHandled: a scan loop that has handled this many blocks in one case is stopped (the unchanged loop
+// handles one block per poll; one that works through a backlog without polling must not run away)
+const maxHandled = 1200
 
 type btcHandler struct {
 	conn *btcConn
@@ -175,6 +227,12 @@ type btcHandler struct {
 }
 
 func (h *btcHandler) HandleEvents(b *big.Int) error {
+	if len(h.got) >= maxHandled {
+		if h.conn.cancel != nil {
+			h.conn.cancel()
+		}
+		return errors.New("enough")
+	}
 	h.got = append(h.got, Handled{Poll: h.conn.poll, Block: cp(b)})
 	return nil
 }
@@ -240,8 +298,9 @@ func newBtcListener(conf *big.Int) (*btclistener.BtcListener, *btcConn, *btcHand
 	return btclistener.NewBtcListener(conn, []btclistener.EventHandler{h}, cfg, nopStore{}), conn, h, cfg
 }
 
-func scan(start *Int, conf Int, heads []int64) []Handled {
+func scan(start *Int, conf Int, heads []int64, fails []string) []Handled {
 	l, conn, h, _ := newBtcListener(conf.v())
+	conn.fails = fails
 	return scanWith(l, conn, h, start, heads)
 }
 
@@ -254,10 +313,17 @@ func scanWith(l *btclistener.BtcListener, conn *btcConn, h *btcHandler, start *I
 	if start != nil {
 		sb = start.v()
 	}
-	done := make(chan struct{})
-	go func() { l.ListenToEvents(ctx, sb); close(done) }()
+	done := make(chan any, 1)
+	go func() {
+		// a panic of the loop is raised again in the goroutine of the case (which reports it)
+		defer func() { done <- recover() }()
+		l.ListenToEvents(ctx, sb)
+	}()
 	select {
-	case <-done:
+	case p := <-done:
+		if p != nil {
+			panic(fmt.Sprint("BTC scan loop panicked: ", p))
+		}
 	case <-time.After(20 * time.Second):
 		cancel()
 		panic("BTC scan loop did not terminate")
@@ -290,11 +356,14 @@ func run(c Case) Obs {
 	switch c.Path {
 	case "BtcScan":
 		st := c.Blk
-		got := scan(&st, c.Conf, []int64{i64(c.Head, "BTC head")})
+		got := scan(&st, c.Conf, []int64{i64(c.Head, "BTC head")}, nil)
 		return Obs{Blocks: blocksOf(got)}
 	case "Hist":
-		got := scan(c.Start, c.Conf, c.Heads)
+		got := scan(c.Start, c.Conf, c.Heads, c.Fails)
 		return Obs{Blocks: blocksOf(got), Hist: got}
+	case "Scripted":
+		blocks, served := runScripted(c)
+		return Obs{Blocks: []Int{}, Multi: blocks, Served: served}
 	case "Seq":
 		return Obs{Blocks: []Int{}, Seq: runSeq(c)}
 	case "Multi":
@@ -702,21 +771,49 @@ func gen(r *vgen.Rng, tier string) []Case {
 		}
 		out = append(out, Case{Path: "Seq", Conf: Int{conf}, Ops: ops})
 	}
+	out = append(out, genScan(r, tier)...)
 	out = append(out, genMulti(r, tier)...)
 	out = append(out, genSubBatch(r, tier)...)
 	out = append(out, genTxBatch(r, tier)...)
+	// the scripted lookups go first: whatever waits for a head to move starts waiting at once
+	out = append(genScripted(r, tier), out...)
+	prefetch(out)
 	return out
 }
 
 func zi(x Int) string { return vgen.ZBig(x.v()) }
 
+var caseKinds = append(append([]string{}, singlePaths...), "Hist", "Seq", "Multi", "SubBatch", "TxBatch", "Scripted")
+
+func kindIndex(path string) int {
+	for i, k := range caseKinds {
+		if k == path {
+			return i
+		}
+	}
+	return len(caseKinds)
+}
+
 func coq(c Case, o Obs) string {
+	if o.Unanswered {
+		return "Unanswered " + vgen.N(uint64(kindIndex(c.Path)))
+	}
+	if c.Path == "Scripted" {
+		return coqScripted(c, o)
+	}
 	if c.Path == "Hist" {
 		st := "None"
 		if c.Start != nil {
 			st = vgen.Some(zi(*c.Start))
 		}
-		return "Hist " + st + " " + zi(c.Conf) + " " + vgen.ListOf(c.Heads, vgen.Z) + " " +
+		polls := make([]string, len(c.Heads))
+		for i, h := range c.Heads {
+			polls[i] = vgen.Some(vgen.Z(h))
+			if i < len(c.Fails) && c.Fails[i] != "" {
+				polls[i] = "None"
+			}
+		}
+		return "Hist " + st + " " + zi(c.Conf) + " " + vgen.List(polls) + " " +
 			vgen.ListOf(o.Hist, func(h Handled) string { return vgen.Pair(vgen.N(uint64(h.Poll)), zi(h.Block)) })
 	}
 	if c.Path == "Seq" {
@@ -731,11 +828,19 @@ func coq(c Case, o Obs) string {
 		}) + " " + vgen.ListOf(o.Multi, func(b []Int) string { return vgen.ListOf(b, zi) })
 	}
 	if c.Path == "SubBatch" {
-		return "Batch SubRetryEvt " + zi(c.Head) + " 0 " + vgen.ListOf(c.Blks, zi) + " " + vgen.ListOf(o.Blocks, zi)
+		head := vgen.Some(zi(c.Head))
+		if c.Fin != "" {
+			head = "None"
+		}
+		return "Batch SubRetryEvt " + head + " 0 " + vgen.ListOf(c.Blks, zi) + " " + vgen.ListOf(o.Blocks, zi)
 	}
 	if c.Path == "TxBatch" {
 		return "TxBatch " + zi(c.Conf) + " " + vgen.ListOf(c.Txs, func(e TxEv) string {
-			return "(" + vgen.Bool(e.Status == 1) + ", " + optZ(e.Head) + ", " + optZ(e.RBlk) + ", " +
+			head := e.Head
+			if e.HFail != "" {
+				head = nil
+			}
+			return "(" + vgen.Bool(e.Status == 1) + ", " + optZ(head) + ", " + optZ(e.RBlk) + ", " +
 				vgen.ListOf(e.Logs, func(l TxLog) string { return "(" + vgen.Bool(l.Mine) + ", " + optZ(l.Blk) + ")" }) + ")"
 		}) + " " + vgen.ListOf(o.Logs, func(b []int) string {
 			return vgen.ListOf(b, func(i int) string { return vgen.N(uint64(i)) })
@@ -751,11 +856,12 @@ func near(head, blk, conf *big.Int) bool {
 }
 
 func main() {
+	zerolog.SetGlobalLevel(zerolog.Disabled) // the handlers log every refusal
 	vgen.Main(vgen.Spec[Case, Obs]{
 		Property:  "C04",
 		RunModule: "C04",
 		Gen:       gen,
-		Run:       run,
+		Run:       runCase,
 		Coq:       coq,
 		Kind: func(c Case) string {
 			if c.Path == "Multi" {
@@ -764,6 +870,12 @@ func main() {
 			return c.Path
 		},
 		NonTrivial: func(c Case, o Obs) bool {
+			if o.Unanswered {
+				return false
+			}
+			if c.Path == "Scripted" {
+				return true
+			}
 			if c.Path == "Hist" {
 				return len(o.Hist) > 0
 			}
@@ -790,6 +902,6 @@ func main() {
 			}
 			return false
 		},
-		Rule: "for each of the 6 guards: boundary grid (head-blk-conf in -3..3) x conf x base height, the same boundary with the height at 2^k-1, 2^k, 2^k+1 for k in 31,32,53,63,64,127,128, alias grid (height / head / confirmations shifted by a multiple of 2^31, 2^32, 2^63, 2^64 from a boundary value), sign grid (negative heights, heads, confirmations), random triples from a mixture of magnitudes - all restricted to exactly the values the Go types of the path can hold (BTC heads int64, Substrate finalized heads uint32, Substrate retry-event height u128, everything else unbounded big.Int); plus random head histories for the real BTC scan loop (also just below 2^31, 2^32, 2^53, 2^63 and with confirmations beyond the widths), plus random sequences of guard evaluations on long-lived handler objects that share the configured confirmation depth as app.go wires them; plus several evaluations at once (Multi: all six paths on one set of long-lived conf-sharing objects, per evaluation its own head - batch = one goroutine as relayer.route handles a message batch, sched = one goroutine per evaluation under a scripted interleaving in which the fake RPC clients park every call (grid: for every path A takes 1..4 steps, B runs from start to end, A goes on, and strictly alternating, on the pairs too-new/old, old/too-new, too-new/just-accepted; random scripts for 2..4 evaluations), free = free-running goroutines; unknown values: receipt without block number, head request answered without number, heads and heights 0 / negative), SubBatch (the real substrate RetryEventHandler on every range of 1..3 Retry events over the heights head-1..head+2 at finalized heads 0, 1, 100 and random ranges of 1..5 events with repeated heights, several destination domains and heights beyond 2^32 / 2^64; observed: the blocks whose deposits reached the message channel), TxBatch (the real EVM RetryV1EventHandler + events.Listener on ranges of 1..4 RetryV1 events, the same transaction named repeatedly, receipts decoded from RPC-style JSON: blockNumber null / 0 / around the boundary, no logs, several logs, foreign logs, logs whose blockNumber is null, 0 or disagrees with the receipt, status 0, head request without number; observed: the logs whose deposits reached the message channel); observed otherwise: the block numbers handed to HandleEvents / ProcessDeposits / GetBlockHash; distinct = distinct input JSON; non-trivial = within 3 blocks of the acceptance boundary (also after reducing the values modulo 2^31, 2^32, 2^63 or 2^64), a history in which at least one block is handled, two or more evaluations / events, or an unknown value",
+		Rule: "for each of the 6 guards: boundary grid (head-blk-conf in -3..3) x conf x base height, the same boundary with the height at 2^k-1, 2^k, 2^k+1 for k in 31,32,53,63,64,127,128, alias grid (height / head / confirmations shifted by a multiple of 2^31, 2^32, 2^63, 2^64 from a boundary value), sign grid (negative heights, heads, confirmations), random triples from a mixture of magnitudes - all restricted to exactly the values the Go types of the path can hold (BTC heads int64, Substrate finalized heads uint32, Substrate retry-event height u128, everything else unbounded big.Int); plus random head histories for the real BTC scan loop (also just below 2^31, 2^32, 2^53, 2^63 and with confirmations beyond the widths), plus random sequences of guard evaluations on long-lived handler objects that share the configured confirmation depth as app.go wires them; plus several evaluations at once (Multi: all six paths on one set of long-lived conf-sharing objects, per evaluation its own head - batch = one goroutine as relayer.route handles a message batch, sched = one goroutine per evaluation under a scripted interleaving in which the fake RPC clients park every call (grid: for every path A takes 1..4 steps, B runs from start to end, A goes on, and strictly alternating, on the pairs too-new/old, old/too-new, too-new/just-accepted; random scripts for 2..4 evaluations), free = free-running goroutines; unknown values: receipt without block number, head request answered without number, heads and heights 0 / negative), SubBatch (the real substrate RetryEventHandler on every range of 1..3 Retry events over the heights head-1..head+2 at finalized heads 0, 1, 100 and random ranges of 1..5 events with repeated heights, several destination domains and heights beyond 2^32 / 2^64; observed: the blocks whose deposits reached the message channel), TxBatch (the real EVM RetryV1EventHandler + events.Listener on ranges of 1..4 RetryV1 events, the same transaction named repeatedly, receipts decoded from RPC-style JSON: blockNumber null / 0 / around the boundary, no logs, several logs, foreign logs, logs whose blockNumber is null, 0 or disagrees with the receipt, status 0, head request without number; observed: the logs whose deposits reached the message channel); plus scripted bound lookups (Scripted: evaluations one after the other on ONE long-lived handler of each of the five retry paths, the k-th lookup answered from a script whose last answer repeats - the head stalls at the required block, 1..5, 10, 100 below it, advances one block per lookup / slowly / in a jump / too late / not far enough while the call waits, falls back; a lookup fails at position 0..3 of the script in every way the client can fail (first or second RPC of a two-step lookup, nil or zero-valued result next to the error, no number) with the other answers below or above the required block; the k-th call of a handler that was answered before; failing receipt lookups; random scripts), BTC scan histories with a backlog of 1, 10, 49..52, 100, 101, 500 blocks under a stalled and a growing head and one-poll backlogs of 1..1024 blocks on every path, histories whose head lookups fail (before any head is known, between answered polls, with the cursor block short of its confirmations), ranges whose finalized-head lookup fails (SubBatch) and RetryV1 events whose LatestBlock fails (TxBatch) with events above and below the bound; every case runs under a deadline of 12 s, concurrently with the others (a case that is not answered in time is recorded as unanswered: not judged, flagged as a broken correspondence); observed otherwise: the block numbers handed to HandleEvents / ProcessDeposits / GetBlockHash; distinct = distinct input JSON; non-trivial = within 3 blocks of the acceptance boundary (also after reducing the values modulo 2^31, 2^32, 2^63 or 2^64), a history in which at least one block is handled, two or more evaluations / events, or an unknown value",
 	})
 }
